@@ -75,7 +75,10 @@ def run(ctx, rep):
                  "more): where diagnostics are written is decided by C06-ROUTE and the stderr census below", ri.where(),
                  nontrivial=False)
         # stderr field use census across Master methods
-        fs = "f%d" % mf.index("stderr")
+        if "stderr" not in mf:
+            r.missing("the stderr field of Master (the diagnostics stream is not a field of Master any more: "
+                      "unrecognised idiom)")
+        fs = "f%d" % (mf.index("stderr") if "stderr" in mf else 10 ** 6)
         for name, b in lib.bodies.items():
             if not name.startswith("Master::<S>::") or name.endswith("::new"):
                 continue
